@@ -159,13 +159,9 @@ func (a arrayVal) Index(idx value) (value, error) {
 // Set checks that idx is in bounds and then sets
 // the value of the element at idx to val.
 func (a arrayVal) Set(idx, val value) error {
-	index := int(idx.(numVal))
-	length := len(a.Elements)
-	if index >= length || index < -length {
-		return fmt.Errorf("%w: %d", ErrBounds, index)
-	}
-	if index < 0 {
-		index += length
+	index, err := normalizeIndex(idx, len(a.Elements), indexExpression) // same checks as a[i]
+	if err != nil {
+		return err
 	}
 	a.Elements[index] = val
 	return nil
